@@ -1,56 +1,651 @@
-//! probe (temporary)
+//! C10 — every search hit is a valid answer to the query.
+//! impl  : Memvid::search on real .mv2 files over random histories (put with/without instant index, commit,
+//!         delete, update, reopen) and random query expressions printed from a generated AST;
+//! model : drv_c10 (post-engine part of Memvid::search: dispatch, uri/scope filter, parsed.evaluate post-filter,
+//!         occurrences, snippet slices, assembly loop, filters-only path) fed with the REAL engine answer
+//!         (verif_hooks::tantivy_search_documents), the frame table and the f32 re-sort computed here;
+//! oracle: every hit re-evaluated with an independent evaluator over the generated AST + text/range/rank/top_k clauses.
 use memvid_core::verif_hooks as vh;
-use memvid_core::{Memvid, PutOptions, SearchRequest};
+use memvid_core::{Frame, FrameRole, FrameStatus, Memvid, PutOptions, SearchRequest, SearchResponse};
+use mvh::*;
+use std::collections::BTreeSet;
 
-fn req(q: &str, k: usize) -> SearchRequest {
-    SearchRequest {
-        query: q.to_string(), top_k: k, snippet_chars: 80, uri: None, scope: None, cursor: None,
-        as_of_frame: None, as_of_ts: None, no_sketch: true,
-        acl_context: None, acl_enforcement_mode: Default::default(),
+// ------------------------------------------------------------------------------------------ vocabulary
+const WORDS: &[&str] = &["alpha", "beta", "gamma", "delta", "kiwi", "zebra", "quartz", "walnut", "falcon", "running",
+    "tables", "café", "über", "network", "memory"];
+const ABSENT: &[&str] = &["zzyzx", "qwerty", "nothingness"];
+const FILLER: &[&str] = &["lorem", "ipsum", "dolor", "amet", "tempor", "magna", "aliqua", "minim", "veniam", "nostrud",
+    "ullamco", "laboris", "nisi", "commodo", "consequat", "duis", "aute", "irure", "velit", "esse", "señor", "naïve"];
+const TAGS: &[&str] = &["red", "blue", "Green", "work"];
+const LABELS: &[&str] = &["todo", "Done", "note"];
+const TRACKS: &[&str] = &["main", "Side"];
+const DATES_IN_TEXT: &[&str] = &["2019", "2021-06-15", "2023-11-02", "2020-02-29"];
+
+// ------------------------------------------------------------------------------------------ query AST
+#[derive(Clone, Debug, PartialEq)]
+enum Ast {
+    Word(String),
+    Phrase(String),
+    Wild(String),
+    Field(String, String),
+    Date(String, String),
+    Not(Box<Ast>),
+    And(bool, Box<Ast>, Box<Ast>),
+    Or(Box<Ast>, Box<Ast>),
+}
+
+fn ast_json(a: &Ast) -> Value {
+    match a {
+        Ast::Word(w) => json!({"w": w}),
+        Ast::Phrase(p) => json!({"p": p}),
+        Ast::Wild(p) => json!({"wild": p}),
+        Ast::Field(k, v) => json!({"field": k, "value": v}),
+        Ast::Date(s, e) => json!({"date": [s, e]}),
+        Ast::Not(x) => json!({"not": ast_json(x)}),
+        Ast::And(ex, l, r) => json!({"and": [ast_json(l), ast_json(r)], "explicit": ex}),
+        Ast::Or(l, r) => json!({"or": [ast_json(l), ast_json(r)]}),
     }
 }
 
-fn show(mem: &mut Memvid, q: &str) {
-    match mem.search(req(q, 10)) {
-        Ok(r) => {
-            println!("  q={q:?} engine={:?} total={} stale={} hits={:?}", r.engine, r.total_hits, r.stale_index_skips,
-                r.hits.iter().map(|h| (h.frame_id, h.rank, h.range, h.text.clone(), h.chunk_range)).collect::<Vec<_>>());
+fn ast_from(v: &Value) -> Ast {
+    if let Some(w) = v.get("w") { return Ast::Word(w.as_str().unwrap().into()); }
+    if let Some(w) = v.get("p") { return Ast::Phrase(w.as_str().unwrap().into()); }
+    if let Some(w) = v.get("wild") { return Ast::Wild(w.as_str().unwrap().into()); }
+    if let Some(k) = v.get("field") { return Ast::Field(k.as_str().unwrap().into(), v["value"].as_str().unwrap().into()); }
+    if let Some(d) = v.get("date") { return Ast::Date(d[0].as_str().unwrap().into(), d[1].as_str().unwrap().into()); }
+    if let Some(x) = v.get("not") { return Ast::Not(Box::new(ast_from(x))); }
+    if let Some(x) = v.get("and") { return Ast::And(v["explicit"].as_bool().unwrap_or(false), Box::new(ast_from(&x[0])), Box::new(ast_from(&x[1]))); }
+    let x = &v["or"];
+    Ast::Or(Box::new(ast_from(&x[0])), Box::new(ast_from(&x[1])))
+}
+
+/// query text of an AST: NOT > AND (explicit or by juxtaposition) > OR; parentheses only where needed
+fn print_ast(a: &Ast, ctx: u8, out: &mut Vec<String>) {
+    match a {
+        Ast::Word(w) => out.push(w.clone()),
+        Ast::Phrase(p) => out.push(format!("\"{p}\"")),
+        Ast::Wild(p) => out.push(p.clone()),
+        Ast::Field(k, v) => out.push(format!("{k}:{v}")),
+        Ast::Date(s, e) => out.push(format!("date:[{s} TO {e}]")),
+        Ast::Not(x) => { out.push("NOT".into()); print_ast(x, 2, out); }
+        Ast::And(ex, l, r) => {
+            if ctx > 1 { out.push("(".into()); }
+            print_ast(l, 1, out);
+            if *ex { out.push("AND".into()); }
+            print_ast(r, 2, out);
+            if ctx > 1 { out.push(")".into()); }
         }
-        Err(e) => println!("  q={q:?} ERR {e}"),
+        Ast::Or(l, r) => {
+            if ctx > 0 { out.push("(".into()); }
+            print_ast(l, 0, out);
+            out.push("OR".into());
+            print_ast(r, 1, out);
+            if ctx > 0 { out.push(")".into()); }
+        }
+    }
+}
+fn query_text(a: &Ast) -> String { let mut v = vec![]; print_ast(a, 0, &mut v); v.join(" ") }
+
+// ---- independent evaluator (the meaning of the AST; nothing of memvid's parser/evaluator is used)
+fn days_from_civil(y: i64, m: i64, d: i64) -> i64 {
+    let y = if m <= 2 { y - 1 } else { y };
+    let era = if y >= 0 { y } else { y - 399 } / 400;
+    let yoe = y - era * 400;
+    let mp = (m + 9) % 12;
+    let doy = (153 * mp + 2) / 5 + d - 1;
+    let doe = yoe * 365 + yoe / 4 - yoe / 100 + doy;
+    era * 146097 + doe - 719468
+}
+fn dim(y: i64, m: i64) -> i64 {
+    match m { 2 => if (y % 4 == 0 && y % 100 != 0) || y % 400 == 0 { 29 } else { 28 }, 4 | 6 | 9 | 11 => 30, _ => 31 }
+}
+/// "YYYY-MM-DD" | "YYYY-MM" | "YYYY" at 00:00 UTC; `*`/anything else = no bound / not a date
+fn date_ts(s: &str) -> Option<i64> {
+    let parts: Vec<&str> = s.split('-').collect();
+    let num = |x: &str| -> Option<i64> { if !x.is_empty() && x.bytes().all(|b| b.is_ascii_digit()) { x.parse().ok() } else { None } };
+    let (y, m, d) = match parts.len() {
+        3 => (num(parts[0])?, num(parts[1])?, num(parts[2])?),
+        2 => (num(parts[0])?, num(parts[1])?, 1),
+        1 => { if s.len() != 4 { return None; } (num(s)?, 1, 1) }
+        _ => return None,
+    };
+    if !(1..=12).contains(&m) || d < 1 || d > dim(y, m) || y > 9999 { return None; }
+    Some(days_from_civil(y, m, d) * 86400)
+}
+fn glob(p: &[char], h: &[char]) -> bool {
+    match p.split_first() {
+        None => h.is_empty(),
+        Some((&'*', rest)) => {
+            let mut i = 0;
+            loop {
+                if glob(rest, &h[i..]) { return true; }
+                if i >= h.len() || h[i] == '\n' { return false; }
+                i += 1;
+            }
+        }
+        Some((&c, rest)) => match h.split_first() {
+            None => false,
+            Some((&x, hr)) => (if c == '?' { x != '\n' } else { x == c }) && glob(rest, hr),
+        },
+    }
+}
+fn eval_ast(a: &Ast, f: &Frame, content_lower: &str) -> bool {
+    let ieq = |a: &str, b: &str| a.to_ascii_lowercase() == b.to_ascii_lowercase();
+    match a {
+        Ast::Word(w) | Ast::Phrase(w) => content_lower.contains(&w.to_ascii_lowercase()),
+        Ast::Wild(p) => glob(&p.to_ascii_lowercase().chars().collect::<Vec<_>>(), &content_lower.chars().collect::<Vec<_>>()),
+        Ast::Field(k, v) => match k.as_str() {
+            "uri" => f.uri.as_deref().is_some_and(|u| ieq(u, v)),
+            // the parser lower-cases the value; frames of this harness carry lower-case URIs, so the
+            // case-sensitivity question of `scope:` (property C32) does not arise here
+            "scope" => f.uri.as_deref().is_some_and(|u| u.starts_with(&v.to_ascii_lowercase())),
+            "track" => f.track.as_deref().is_some_and(|t| ieq(t, v)),
+            "tag" => f.tags.iter().any(|t| ieq(t, v)),
+            "label" => f.labels.iter().any(|t| ieq(t, v)),
+            _ => false,
+        },
+        Ast::Date(s, e) => {
+            let (s, e) = (date_ts(s), date_ts(e));
+            if s.is_none() && e.is_none() { return true; }
+            let mut cands = vec![f.timestamp];
+            for d in &f.content_dates { if let Some(t) = date_ts(d) { cands.push(t); } }
+            cands.iter().any(|t| s.map_or(true, |s| *t >= s) && e.map_or(true, |e| *t <= e))
+        }
+        Ast::Not(x) => !eval_ast(x, f, content_lower),
+        Ast::And(_, l, r) => eval_ast(l, f, content_lower) && eval_ast(r, f, content_lower),
+        Ast::Or(l, r) => eval_ast(l, f, content_lower) || eval_ast(r, f, content_lower),
+    }
+}
+/// request-level uri / scope filter as documented: uri = case-insensitive prefix (exact when it names a
+/// fragment with '#'), otherwise scope = prefix; uri wins over scope
+fn request_filter_ok(uri: &Option<String>, scope: &Option<String>, f: &Frame) -> bool {
+    if let Some(u) = uri {
+        let Some(fu) = f.uri.as_deref() else { return false };
+        if u.contains('#') { fu.to_ascii_lowercase() == u.to_ascii_lowercase() } else { fu.to_ascii_lowercase().starts_with(&u.to_ascii_lowercase()) }
+    } else if let Some(s) = scope {
+        f.uri.as_deref().is_some_and(|fu| fu.starts_with(s.as_str()))
+    } else { true }
+}
+
+// ------------------------------------------------------------------------------------------ histories
+#[derive(Clone, Debug)]
+struct DocSpec { text: String, uri: Option<String>, tags: Vec<String>, labels: Vec<String>, track: Option<String>, ts: i64,
+    instant: bool, explicit_text: bool, auto: bool }
+#[derive(Clone, Debug)]
+struct Req { ast: Ast, top_k: usize, snippet: usize, uri: Option<String>, scope: Option<String>, cursor: Option<String>, follow: bool }
+#[derive(Clone, Debug)]
+enum Op { Put(DocSpec), Commit, Delete(usize), Update(usize, DocSpec), Reopen, Search(Req) }
+
+fn doc_json(d: &DocSpec) -> Value {
+    json!({"text": d.text, "uri": d.uri, "tags": d.tags, "labels": d.labels, "track": d.track, "ts": d.ts,
+        "instant": d.instant, "explicit_text": d.explicit_text, "auto": d.auto})
+}
+fn doc_from(v: &Value) -> DocSpec {
+    let strs = |x: &Value| x.as_array().map(|a| a.iter().map(|s| s.as_str().unwrap().to_string()).collect()).unwrap_or_default();
+    DocSpec { text: v["text"].as_str().unwrap().into(), uri: v["uri"].as_str().map(String::from), tags: strs(&v["tags"]), labels: strs(&v["labels"]),
+        track: v["track"].as_str().map(String::from), ts: v["ts"].as_i64().unwrap(), instant: v["instant"].as_bool().unwrap(),
+        explicit_text: v["explicit_text"].as_bool().unwrap(), auto: v["auto"].as_bool().unwrap() }
+}
+fn req_json(r: &Req) -> Value {
+    json!({"ast": ast_json(&r.ast), "query": query_text(&r.ast), "top_k": r.top_k, "snippet": r.snippet, "uri": r.uri, "scope": r.scope,
+        "cursor": r.cursor, "follow": r.follow})
+}
+fn req_from(v: &Value) -> Req {
+    Req { ast: ast_from(&v["ast"]), top_k: v["top_k"].as_u64().unwrap() as usize, snippet: v["snippet"].as_u64().unwrap() as usize,
+        uri: v["uri"].as_str().map(String::from), scope: v["scope"].as_str().map(String::from), cursor: v["cursor"].as_str().map(String::from),
+        follow: v["follow"].as_bool().unwrap_or(false) }
+}
+fn op_json(o: &Op) -> Value {
+    match o {
+        Op::Put(d) => json!({"op": "put", "doc": doc_json(d)}),
+        Op::Commit => json!({"op": "commit"}),
+        Op::Delete(i) => json!({"op": "delete", "pick": i}),
+        Op::Update(i, d) => json!({"op": "update", "pick": i, "doc": doc_json(d)}),
+        Op::Reopen => json!({"op": "reopen"}),
+        Op::Search(r) => json!({"op": "search", "req": req_json(r)}),
+    }
+}
+fn op_from(v: &Value) -> Op {
+    match v["op"].as_str().unwrap() {
+        "put" => Op::Put(doc_from(&v["doc"])),
+        "commit" => Op::Commit,
+        "delete" => Op::Delete(v["pick"].as_u64().unwrap() as usize),
+        "update" => Op::Update(v["pick"].as_u64().unwrap() as usize, doc_from(&v["doc"])),
+        "reopen" => Op::Reopen,
+        _ => Op::Search(req_from(&v["req"])),
     }
 }
 
-fn put(mem: &mut Memvid, text: &str, uri: &str, instant: bool, tags: &[&str]) -> u64 {
-    let opts = PutOptions { uri: Some(uri.into()), search_text: Some(text.into()), timestamp: Some(1_700_000_000),
-        tags: tags.iter().map(|s| s.to_string()).collect(),
-        auto_tag: false, extract_dates: false, extract_triplets: false, instant_index: instant, ..Default::default() };
-    mem.put_bytes_with_options(text.as_bytes(), opts).expect("put")
+fn gen_text(rng: &mut Rng, nwords: usize) -> String {
+    let mut s = String::new();
+    let mut since_dot = 0;
+    for i in 0..nwords {
+        let w = if rng.chance(1, 3) { *rng.pick(WORDS) } else if rng.chance(1, 40) { *rng.pick(DATES_IN_TEXT) } else { *rng.pick(FILLER) };
+        if since_dot == 0 && rng.chance(1, 2) {
+            let mut c = w.chars();
+            let first = c.next().unwrap();
+            s.extend(first.to_uppercase());
+            s.push_str(c.as_str());
+        } else { s.push_str(w); }
+        since_dot += 1;
+        if i + 1 < nwords {
+            if since_dot > 3 && rng.chance(1, 7) { s.push_str(*rng.pick(&[". ", "! ", "? ", ", "])); since_dot = 0; } else { s.push(' '); }
+        }
+    }
+    s
+}
+
+fn gen_doc(rng: &mut Rng, n: usize) -> DocSpec {
+    let nwords = match rng.below(10) { 0 => rng.usize(1, 3), 1..=5 => rng.usize(4, 20), 6..=8 => rng.usize(30, 90), _ => rng.usize(250, 700) };
+    let bare = rng.chance(1, 4);
+    let pick_some = |rng: &mut Rng, xs: &[&str], p: u64| -> Vec<String> { xs.iter().filter(|_| rng.chance(1, p)).map(|s| s.to_string()).collect() };
+    DocSpec {
+        text: gen_text(rng, nwords),
+        uri: if bare || rng.chance(1, 5) { None } else { Some(format!("mv2://c10/{}/doc{}", rng.pick(&["a", "b", "ab"]), n)) },
+        tags: if bare { vec![] } else { pick_some(rng, TAGS, 3) },
+        labels: if bare { vec![] } else { pick_some(rng, LABELS, 4) },
+        track: if bare || rng.chance(2, 3) { None } else { Some(rng.pick(TRACKS).to_string()) },
+        ts: 1_546_300_800 + rng.i64(0, 5 * 365 * 86400),
+        instant: bare || rng.chance(1, 2),
+        explicit_text: bare || rng.chance(2, 3),
+        auto: !bare && rng.chance(1, 4),
+    }
+}
+
+fn gen_leaf_field(rng: &mut Rng, uris: &[String]) -> Ast {
+    match rng.below(4) {
+        0 => Ast::Field("scope".into(), (*rng.pick(&["mv2://frames", "mv2://c10/", "mv2://c10/a"])).into()),
+        1 => Ast::Field("uri".into(), if uris.is_empty() { "mv2://frames/0".into() } else { rng.pick(uris).clone() }),
+        2 => Ast::Field("tag".into(), rng.pick(TAGS).to_string()),
+        _ => Ast::Date("2018".into(), "*".into()),
+    }
+}
+fn gen_leaf(rng: &mut Rng, uris: &[String]) -> Ast {
+    match rng.below(20) {
+        0..=7 => Ast::Word(if rng.chance(1, 8) { rng.pick(ABSENT).to_string() } else {
+            let w = rng.pick(WORDS).to_string();
+            if rng.chance(1, 6) { w.to_uppercase() } else if rng.chance(1, 8) { w.chars().take(3).collect() } else { w }
+        }),
+        8..=9 => Ast::Phrase(format!("{} {}", if rng.bool() { rng.pick(WORDS) } else { rng.pick(FILLER) }, if rng.bool() { rng.pick(WORDS) } else { rng.pick(FILLER) })),
+        10 => Ast::Field("uri".into(), if uris.is_empty() || rng.chance(1, 5) { "mv2://c10/a/doc99".into() } else {
+            let u = rng.pick(uris).clone(); if rng.chance(1, 4) { u.to_uppercase() } else { u } }),
+        11 => Ast::Field("scope".into(), (*rng.pick(&["mv2://c10/a", "mv2://c10/ab", "mv2://c10/", "mv2://frames", "MV2://C10/b", "mv2://none"])).into()),
+        12..=13 => Ast::Field("tag".into(), { let t = rng.pick(TAGS).to_string(); if rng.chance(1, 3) { t.to_uppercase() } else { t } }),
+        14 => Ast::Field("label".into(), { let t = rng.pick(LABELS).to_string(); if rng.chance(1, 3) { t.to_lowercase() } else { t } }),
+        15 => Ast::Field("track".into(), rng.pick(TRACKS).to_lowercase()),
+        16..=17 => {
+            let d = |rng: &mut Rng| -> String { match rng.below(4) { 0 => "*".into(), 1 => format!("{}", rng.usize(2018, 2025)),
+                2 => format!("{}-{:02}", rng.usize(2018, 2025), rng.usize(1, 12)), _ => format!("{}-{:02}-{:02}", rng.usize(2018, 2025), rng.usize(1, 12), rng.usize(1, 28)) } };
+            let (mut s, e) = (d(rng), d(rng));
+            if s == "*" && e == "*" { s = "2019".into(); }     // `date:[* TO *]` panics inside Tantivy's RangeQuery (not a C10 matter)
+            Ast::Date(s, e)
+        }
+        _ => Ast::Wild((*rng.pick(&["*", "*alpha*", "*kiwi*", "alp*", "?eta*", "*zzyzx*", "*a*"])).into()),
+    }
+}
+fn gen_ast(rng: &mut Rng, depth: usize, uris: &[String]) -> Ast {
+    if depth == 0 || rng.chance(2, 5) { return gen_leaf(rng, uris); }
+    match rng.below(10) {
+        0..=4 => Ast::And(rng.chance(1, 3), Box::new(gen_ast(rng, depth - 1, uris)), Box::new(gen_ast(rng, depth - 1, uris))),
+        5..=7 => Ast::Or(Box::new(gen_ast(rng, depth - 1, uris)), Box::new(gen_ast(rng, depth - 1, uris))),
+        _ => Ast::Not(Box::new(gen_ast(rng, depth - 1, uris))),
+    }
+}
+fn gen_req(rng: &mut Rng, uris: &[String]) -> Req {
+    let ast = match rng.below(12) {
+        // shapes that reach the engine-less paths: seedless wildcard + field term (filters only)
+        0 => Ast::And(false, Box::new(Ast::Wild((*rng.pick(&["*", "*a*", "*alpha*"])).into())), Box::new(gen_leaf_field(rng, uris))),
+        1 => Ast::And(false, Box::new(gen_leaf_field(rng, uris)), Box::new(Ast::Not(Box::new(Ast::Wild("*zzyzx*".into()))))),
+        _ => gen_ast(rng, 3, uris),
+    };
+    let uri = if rng.chance(1, 6) { Some(if uris.is_empty() || rng.chance(1, 3) { (*rng.pick(&["mv2://c10/a", "mv2://c10/", "MV2://C10/AB", "mv2://frames/1", "mv2://c10/a/doc1#x"])).to_string() } else { rng.pick(uris).clone() }) } else { None };
+    let scope = if rng.chance(1, 6) { Some((*rng.pick(&["mv2://c10/a", "mv2://c10/b", "mv2://frames", "mv2://c10/"])).to_string()) } else { None };
+    let cursor = match rng.below(14) { 0 => Some("0".into()), 1 => Some(format!("{}", rng.usize(1, 4))), 2 => Some("abc".into()), 3 => Some(" 1 ".into()), 4 => Some("999".into()), _ => None };
+    Req { ast, top_k: *rng.pick(&[0usize, 1, 1, 2, 3, 5, 10, 10, 50]), snippet: *rng.pick(&[0usize, 40, 80, 120, 200]), uri, scope, cursor, follow: rng.chance(1, 3) }
+}
+
+fn gen_history(rng: &mut Rng) -> Vec<Op> {
+    // puts and commits cost seconds (Tantivy writer + staging copy), searches cost milliseconds: few state
+    // changes, many searches in each of the situations the property names
+    let mut ops = vec![];
+    let mut uris: Vec<String> = vec![];
+    let mut ndocs = 0usize;
+    let put = |rng: &mut Rng, ops: &mut Vec<Op>, uris: &mut Vec<String>, ndocs: &mut usize| {
+        let d = gen_doc(rng, *ndocs);
+        uris.push(d.uri.clone().unwrap_or_else(|| format!("mv2://frames/{}", *ndocs)));
+        *ndocs += 1;
+        ops.push(Op::Put(d));
+    };
+    let searches = |rng: &mut Rng, ops: &mut Vec<Op>, uris: &[String], n: usize| { for _ in 0..n { ops.push(Op::Search(gen_req(rng, uris))); } };
+    for _ in 0..rng.usize(4, 8) { put(rng, &mut ops, &mut uris, &mut ndocs); }
+    if rng.chance(1, 3) { let n = rng.usize(2, 5); searches(rng, &mut ops, &uris, n); }      // nothing committed yet
+    ops.push(Op::Commit);
+    let n = rng.usize(8, 14); searches(rng, &mut ops, &uris, n);
+    // uncommitted changes on top of a committed state
+    for _ in 0..rng.usize(1, 3) { put(rng, &mut ops, &mut uris, &mut ndocs); }
+    if rng.chance(2, 3) { ops.push(Op::Delete(rng.usize(0, 50))); }
+    if rng.chance(2, 3) { let d = gen_doc(rng, ndocs); ops.push(Op::Update(rng.usize(0, 50), d)); }
+    let n = rng.usize(6, 10); searches(rng, &mut ops, &uris, n);
+    if rng.chance(1, 4) { ops.push(Op::Reopen); let n = rng.usize(3, 6); searches(rng, &mut ops, &uris, n); }   // reopen replays the WAL
+    ops.push(Op::Commit);
+    let n = rng.usize(8, 14); searches(rng, &mut ops, &uris, n);
+    ops.push(Op::Reopen);
+    let n = rng.usize(8, 14); searches(rng, &mut ops, &uris, n);
+    ops
+}
+
+// ------------------------------------------------------------------------------------------ running
+fn put_opts(d: &DocSpec) -> PutOptions {
+    PutOptions { uri: d.uri.clone(), search_text: if d.explicit_text { Some(d.text.clone()) } else { None }, timestamp: Some(d.ts),
+        tags: d.tags.clone(), labels: d.labels.clone(), track: d.track.clone(),
+        auto_tag: d.auto, extract_dates: d.auto, extract_triplets: false, instant_index: d.instant, ..Default::default() }
+}
+
+fn hx(s: &str) -> String { hexw(s.as_bytes()) }
+fn hx_opt(s: Option<&str>) -> String { s.map(hx).unwrap_or_else(|| "~".into()) }
+fn hx_list(v: &[String]) -> String { if v.is_empty() { "_".into() } else { v.iter().map(|s| hx(s)).collect::<Vec<_>>().join(",") } }
+fn fnv1a(b: &[u8]) -> u64 { b.iter().fold(14695981039346656037u64, |h, x| (h ^ *x as u64).wrapping_mul(1099511628211)) }
+
+fn classify_err(e: &str) -> String {
+    let m = [("Lexical index is not enabled", "err lex-not-enabled"), ("at least one search term", "err no-terms"),
+        ("unterminated quoted string", "err invalid-query unterminated-quote"), ("date range must be in format", "err invalid-query bad-date-range"),
+        ("unterminated date range", "err invalid-query unterminated-date-range"), ("expected ')'", "err invalid-query expected-rparen"),
+        ("unexpected token", "err invalid-query unexpected-token"), ("unexpected end of query", "err invalid-query unexpected-end"),
+        ("unsupported field", "err invalid-query unsupported-field"), ("unexpected field for date range", "err invalid-query unexpected-date-field"),
+        ("cursor not an integer", "err cursor notint"), ("cursor beyond total hits", "err cursor beyond")];
+    for (k, v) in m { if e.contains(k) { return v.to_string(); } }
+    format!("err other {e}")
+}
+
+fn canon_resp(r: &SearchResponse) -> String {
+    let eng = match format!("{:?}", r.engine).as_str() { "Tantivy" => "T", "LexFallback" => "L", _ => "?" };
+    let hits = if r.hits.is_empty() { "-".to_string() } else {
+        r.hits.iter().map(|h| {
+            let cr = h.chunk_range.unwrap_or((usize::MAX, usize::MAX));
+            let ct = h.chunk_text.clone().unwrap_or_default();
+            format!("{}:{}:{}:{}:{}:{}:{}:{}:{}:{}", h.rank, h.frame_id, h.range.0, h.range.1, h.matches, cr.0, cr.1, hx(&h.text), ct.len(), fnv1a(ct.as_bytes()))
+        }).collect::<Vec<_>>().join(";")
+    };
+    format!("ok eng={eng} total={} next={} stale={} hits={hits}", r.total_hits, r.next_cursor.clone().unwrap_or("none".into()), r.stale_index_skips)
+}
+
+struct Ctx<'a> { drv: &'a mut Option<Driver>, sum: &'a mut Summary, verbose: bool, table: Vec<String>, failed: bool }
+
+static T_PUT: std::sync::atomic::AtomicU64 = std::sync::atomic::AtomicU64::new(0);
+static T_COMMIT: std::sync::atomic::AtomicU64 = std::sync::atomic::AtomicU64::new(0);
+static T_SEARCH: std::sync::atomic::AtomicU64 = std::sync::atomic::AtomicU64::new(0);
+static T_MODEL: std::sync::atomic::AtomicU64 = std::sync::atomic::AtomicU64::new(0);
+static T_OPEN: std::sync::atomic::AtomicU64 = std::sync::atomic::AtomicU64::new(0);
+fn tick(c: &std::sync::atomic::AtomicU64, t: std::time::Instant) { c.fetch_add(t.elapsed().as_millis() as u64, std::sync::atomic::Ordering::Relaxed); }
+
+fn frame_lines(mem: &mut Memvid, frames: &[Frame]) -> Vec<String> {
+    frames.iter().map(|f| {
+        let st = match f.status { FrameStatus::Active => "a", FrameStatus::Superseded => "s", FrameStatus::Deleted => "d" };
+        let chunk = match vh::resolve_chunk_context(mem, f) { Ok((s, e, t)) => format!("{}:{}:{}", s, e - s, hx(&t)), Err(_) => "~".into() };
+        let fs = match vh::frame_search_text(mem, f) { Ok(t) => hx(&t), Err(_) => "~".into() };
+        format!("frame {st} {} {} {} {} {} {} {} {chunk} {fs}", hx_opt(f.uri.as_deref()), hx_opt(f.track.as_deref()), hx_list(&f.tags), hx_list(&f.labels),
+            f.timestamp, hx_list(&f.content_dates), hx_opt(f.search_text.as_deref()))
+    }).collect()
+}
+
+fn mk_request(r: &Req, query: &str, cursor: Option<String>) -> SearchRequest {
+    SearchRequest { query: query.to_string(), top_k: r.top_k, snippet_chars: r.snippet, uri: r.uri.clone(), scope: r.scope.clone(), cursor,
+        as_of_frame: None, as_of_ts: None, no_sketch: true, acl_context: None, acl_enforcement_mode: Default::default() }
+}
+
+/// one search: real code, oracle, model.  Returns next_cursor of the real response.
+fn check_search(mem: &mut Memvid, r: &Req, cursor: Option<String>, situation: &str, case: &Value, cx: &mut Ctx) -> Option<String> {
+    let query = query_text(&r.ast);
+    let frames = vh::verif_frames(mem);
+    let request = mk_request(r, &query, cursor.clone());
+    let what_req = format!("[{situation}] query `{query}` top_k={} snippet={} uri={:?} scope={:?} cursor={:?}", r.top_k, r.snippet, r.uri, r.scope, cursor);
+    let t0 = std::time::Instant::now();
+    let res = {
+        let m = std::panic::AssertUnwindSafe(&mut *mem);
+        guarded(move || { let m = m; m.0.search(request) })
+    };
+    tick(&T_SEARCH, t0);
+    let res = match res {
+        Ok(x) => x,
+        Err(p) => { cx.sum.branch("search-panicked"); cx.sum.notes.push(format!("search panicked: {what_req}: {p}")); return None; }
+    };
+    if cx.verbose { println!("{what_req}\n  impl : {}", match &res { Ok(x) => canon_resp(x), Err(e) => format!("Err({e})") }); }
+    cx.sum.branch(&format!("situation-{situation}"));
+    // ---------------------------------------------------------------- property oracle (independent of the model)
+    let mut nontrivial = false;
+    if let Ok(resp) = &res {
+        let k = r.top_k.max(1);
+        if resp.hits.len() > k {
+            cx.sum.oracle_violation("more-hits-than-top-k", &format!("{what_req}: {} hits", resp.hits.len()), case.clone()); cx.failed = true; }
+        if resp.hits.iter().enumerate().any(|(i, h)| h.rank != i + 1) {
+            cx.sum.oracle_violation("ranks-not-1-to-n", &format!("{what_req}: ranks {:?}", resp.hits.iter().map(|h| h.rank).collect::<Vec<_>>()), case.clone()); cx.failed = true; }
+        let eng = format!("{:?}", resp.engine);
+        if !resp.hits.is_empty() { cx.sum.branch(if eng == "Tantivy" { "hits-from-tantivy-path" } else { "hits-from-filters-only-path" }); nontrivial = true; }
+        for h in &resp.hits {
+            let Some(f) = frames.get(h.frame_id as usize) else {
+                cx.sum.oracle_violation("hit-names-missing-frame", &format!("{what_req}: frame {}", h.frame_id), case.clone()); cx.failed = true; continue; };
+            if f.status != FrameStatus::Active {
+                cx.sum.oracle_violation("hit-names-inactive-frame", &format!("{what_req}: hit {} names frame {} whose status is {:?} (engine {eng})", h.rank, h.frame_id, f.status), case.clone()); cx.failed = true; }
+            let content = match (&f.search_text, &h.chunk_text) { (Some(t), _) => t.to_ascii_lowercase(), (None, Some(c)) => c.to_ascii_lowercase(), _ => String::new() };
+            if !eval_ast(&r.ast, f, &content) {
+                cx.sum.oracle_violation("hit-does-not-satisfy-query", &format!("{what_req}: frame {} (uri {:?}, tags {:?}, ts {}) does not satisfy the expression", h.frame_id, f.uri, f.tags, f.timestamp), case.clone()); cx.failed = true; }
+            if !request_filter_ok(&r.uri, &r.scope, f) {
+                cx.sum.oracle_violation("hit-outside-uri-scope-filter", &format!("{what_req}: frame {} has uri {:?} (engine {eng})", h.frame_id, f.uri), case.clone()); cx.failed = true; }
+            match (&h.chunk_range, &h.chunk_text) {
+                (Some(cr), Some(ct)) => {
+                    let inside = cr.0 <= h.range.0 && h.range.0 < h.range.1 && h.range.1 <= cr.1;
+                    if !inside { cx.sum.oracle_violation("range-outside-chunk-range", &format!("{what_req}: range {:?} chunk_range {:?}", h.range, cr), case.clone()); cx.failed = true; }
+                    let slice = if inside { ct.as_bytes().get(h.range.0 - cr.0..h.range.1 - cr.0) } else { None };
+                    if slice != Some(h.text.as_bytes()) {
+                        cx.sum.oracle_violation("text-is-not-content-at-range", &format!("{what_req}: frame {} range {:?}", h.frame_id, h.range), case.clone()); cx.failed = true; }
+                    // the chunk text itself is stored content of the frame (or of its parent document)
+                    let owner = if f.role == FrameRole::DocumentChunk { f.parent_id.unwrap_or(h.frame_id) } else { h.frame_id };
+                    match mem.frame_text_by_id(owner) {
+                        Ok(full) => {
+                            if full.as_bytes().get(h.range.0..h.range.1) == Some(h.text.as_bytes()) { cx.sum.branch("text-equals-frame-content-at-global-range"); }
+                            else if full.contains(h.text.as_str()) { cx.sum.branch("text-found-in-frame-content-at-other-offset"); }
+                            else { cx.sum.branch("text-not-in-frame-text-by-id"); }
+                        }
+                        Err(_) => cx.sum.branch("frame-text-by-id-failed"),
+                    }
+                }
+                _ => { cx.sum.oracle_violation("hit-without-chunk-range", &what_req, case.clone()); cx.failed = true; }
+            }
+        }
+    } else { cx.sum.branch("search-returned-error"); }
+    // ---------------------------------------------------------------- model
+    let imp = match &res { Ok(x) => canon_resp(x), Err(e) => classify_err(&e.to_string()) };
+    let t_model = std::time::Instant::now();
+    if cx.drv.is_some() {
+        let lines = frame_lines(mem, &frames);
+        let d = cx.drv.as_mut().unwrap();
+        if lines != cx.table {
+            d.ask("reset");
+            for l in &lines { let a = d.ask(l); if !a.starts_with("ok") { cx.sum.notes.push(format!("driver rejected frame line: {a}")); } }
+            cx.table = lines;
+        }
+        // candidate filter: only the date-range stage can be active in this harness (no as_of, no sketches)
+        let stage: Option<Option<Vec<u64>>> = match mem.verif_date_range_frame_ids(&query) {
+            Err(_) | Ok(None) => Some(None),
+            Ok(Some((true, _))) => None,
+            Ok(Some((false, Some(ids)))) => if ids.is_empty() { None } else { Some(Some(ids.into_iter().collect::<BTreeSet<_>>().into_iter().collect())) },
+            Ok(Some((false, None))) => Some(None),
+        };
+        let stage_s = match &stage { None => "empty".to_string(), Some(None) => "all".into(), Some(Some(ids)) => format!("ids:{}", ids.iter().map(|i| i.to_string()).collect::<Vec<_>>().join(",")) };
+        let offset_hint = cursor.as_deref().and_then(|c| c.parse::<usize>().ok()).unwrap_or(0);
+        let mut doc_limit = (r.top_k.max(1) + offset_hint).saturating_mul(4).max(20);
+        if let Some(Some(ids)) = &stage { doc_limit = doc_limit.min(ids.len().max(1)); }
+        let uri_f = r.uri.clone();
+        let scope_f = if uri_f.is_some() { None } else { r.scope.clone() };
+        let filt: Option<Vec<u64>> = stage.clone().flatten();
+        let eng = {
+            let m = std::panic::AssertUnwindSafe(&*mem);
+            let q = query.clone();
+            guarded(move || { let m = m; vh::tantivy_search_documents(m.0, &q, uri_f.as_deref(), scope_f.as_deref(), filt.as_deref(), doc_limit) })
+        };
+        let engine: Option<Vec<(u64, f32)>> = match eng { Ok(Some(Ok(v))) => Some(v), Ok(Some(Err(_))) => { cx.sum.branch("engine-call-failed"); None }, Ok(None) => None,
+            Err(_) => { cx.sum.branch("engine-hook-panicked"); return None; } };
+        let engine_s = match &engine { None => "none".to_string(), Some(v) if v.is_empty() => "-".into(), Some(v) => v.iter().map(|(i, _)| i.to_string()).collect::<Vec<_>>().join(",") };
+        // analyser output per query token
+        let stems_s = match vh::query_text_tokens(&query) {
+            Ok(toks) => {
+                let set: BTreeSet<String> = toks.into_iter().filter(|t| !t.trim().is_empty()).map(|t| t.to_ascii_lowercase()).collect();
+                if set.is_empty() { "_".to_string() } else {
+                    set.iter().map(|t| format!("{}={}", hx(t), vh::analysed_tokens(mem, &[t.clone()]).unwrap_or_default().iter().map(|s| hx(s)).collect::<Vec<_>>().join("+"))).collect::<Vec<_>>().join(",")
+                }
+            }
+            Err(_) => "_".into(),
+        };
+        let (has_lex, lex_loaded) = vh::search_dispatch_state(mem);
+        // f32 recency re-sort of the model's `evaluated` list, computed here with the formula of the source
+        let mut perm_s = "-".to_string();
+        if let Some(hits) = &engine { if !hits.is_empty() {
+            let a = d.ask(&format!("ev {} {} {} {} {} {engine_s} {stems_s}", r.top_k, r.snippet, hx_opt(r.uri.as_deref()), hx_opt(r.scope.as_deref()), hx(&query)));
+            if let Some(rest) = a.strip_prefix("ev ") {
+                let ids: Vec<u64> = rest.split(' ').next().filter(|s| *s != "-").map(|s| s.split(',').filter_map(|x| x.parse().ok()).collect()).unwrap_or_default();
+                let keep: BTreeSet<u64> = ids.iter().copied().collect();
+                let evaluated: Vec<(u64, f32)> = hits.iter().filter(|(i, _)| keep.contains(i)).cloned().collect();
+                if evaluated.iter().map(|e| e.0).collect::<Vec<_>>() == ids && evaluated.len() > 1 {
+                    let ts = |id: u64| -> i64 { frames.get(id as usize).map(|f| memvid_core::memvid::search::parse_content_date_to_timestamp(&f.content_dates).unwrap_or(f.timestamp)).unwrap_or(0) };
+                    let max_ts = evaluated.iter().map(|(i, _)| ts(*i)).max().unwrap_or(0);
+                    let mut with: Vec<(f32, usize)> = evaluated.iter().enumerate().map(|(pos, (id, bm25))| {
+                        let age_seconds = (max_ts - ts(*id)).max(0) as f32;
+                        let decay_factor = 0.00000802;
+                        let recency_boost = (-decay_factor * age_seconds).exp();
+                        (bm25 * 0.4 + (bm25 * recency_boost * 0.6), pos)
+                    }).collect();
+                    with.sort_by(|a, b| b.0.partial_cmp(&a.0).unwrap_or(std::cmp::Ordering::Equal));
+                    perm_s = with.iter().map(|(_, p)| p.to_string()).collect::<Vec<_>>().join(",");
+                    if with.iter().enumerate().any(|(i, (_, p))| i != *p) { cx.sum.branch("recency-resort-changed-order"); }
+                }
+                if ids.len() < hits.len() { cx.sum.branch("post-filter-culled-an-engine-hit"); }
+            }
+        } }
+        let line = format!("search {} {} {} {} {} {} {stage_s} {engine_s} {} {} {stems_s} {perm_s}", r.top_k, r.snippet, hx_opt(r.uri.as_deref()), hx_opt(r.scope.as_deref()),
+            hx_opt(cursor.as_deref()), hx(&query), has_lex as u8, lex_loaded as u8);
+        let model = d.ask(&line);
+        if cx.verbose { println!("  model: {model}\n  engine={engine_s} stage={stage_s} stems={stems_s} perm={perm_s}"); }
+        if model != imp {
+            cx.sum.disagreement(&what_req, case.clone(), &model, &imp); cx.failed = true;
+        }
+        if model.starts_with("err unmodelled") { cx.sum.branch("legacy-lex-index-loaded"); }
+    }
+    tick(&T_MODEL, t_model);
+    let canon = format!("{situation}|{query}|{}|{}|{:?}|{:?}|{:?}|{}", r.top_k, r.snippet, r.uri, r.scope, cursor, b3short(imp.as_bytes()));
+    cx.sum.case(&canon, nontrivial, || json!({"situation": situation, "query": query, "top_k": r.top_k, "response": imp.chars().take(300).collect::<String>()}));
+    res.ok().and_then(|x| x.next_cursor)
+}
+
+fn run_history(ops: &[Op], cx: &mut Ctx) {
+    let dir = tempfile::tempdir().expect("tempdir");
+    let path = dir.path().join("c10.mv2");
+    let case = json!({"ops": ops.iter().map(op_json).collect::<Vec<_>>()});
+    let mut mem = match Memvid::create(&path) { Ok(m) => m, Err(e) => { cx.sum.notes.push(format!("create failed: {e}")); return; } };
+    let _ = mem.enable_lex();
+    cx.table = vec!["?".into()];
+    let mut pending = false;       // uncommitted mutations
+    let mut pending_instant = false;
+    let mut reopened = false;
+    for op in ops {
+        match op {
+            Op::Put(d) => { let t0 = std::time::Instant::now(); let pr = mem.put_bytes_with_options(d.text.as_bytes(), put_opts(d)); tick(&T_PUT, t0); match pr { Ok(_) => { pending = true; pending_instant |= d.instant; } Err(e) => cx.sum.notes.push(format!("put failed: {e}")) } }
+            Op::Commit => { let t0 = std::time::Instant::now(); let cr = mem.commit(); tick(&T_COMMIT, t0); if let Err(e) = cr { cx.sum.notes.push(format!("commit failed: {e}")); return; } pending = false; pending_instant = false; }
+            Op::Delete(pick) | Op::Update(pick, _) => {
+                let active: Vec<u64> = vh::verif_frames(&mem).iter().filter(|f| f.status == FrameStatus::Active && f.role == FrameRole::Document).map(|f| f.id).collect();
+                if active.is_empty() { continue; }
+                let id = active[pick % active.len()];
+                let r = match op { Op::Update(_, d) => { let mut o = put_opts(d); o.uri = None; mem.update_frame(id, Some(d.text.as_bytes().to_vec()), o, None).map(|_| ()) }
+                    _ => mem.delete_frame(id).map(|_| ()) };
+                match r { Ok(()) => { pending = true; cx.sum.branch(if matches!(op, Op::Delete(_)) { "history-has-delete" } else { "history-has-update" }); } Err(e) => cx.sum.notes.push(format!("delete/update failed: {e}")) }
+            }
+            Op::Reopen => {
+                let t0 = std::time::Instant::now();
+                drop(mem);
+                let reopened_mem = Memvid::open(&path);
+                tick(&T_OPEN, t0);
+                mem = match reopened_mem { Ok(m) => m, Err(e) => { cx.sum.notes.push(format!("reopen failed: {e}")); return; } };
+                reopened = true; pending = false; pending_instant = false;
+            }
+            Op::Search(r) => {
+                let situation = if pending_instant { "before-commit-instant-index" } else if pending { "before-commit" } else if reopened { "after-reopen" } else { "after-commit" };
+                let next = check_search(&mut mem, r, r.cursor.clone(), situation, &case, cx);
+                if r.follow { if let Some(c) = next { cx.sum.branch("followed-next-cursor"); check_search(&mut mem, r, Some(c), situation, &case, cx); } }
+                if cx.failed { return; }
+            }
+        }
+    }
+}
+
+/// hand-written histories that run first: the witnesses of the two defects of `search_with_filters_only`
+fn fixed_corpus() -> Vec<(&'static str, Vec<Op>)> {
+    let bare = |text: &str, ts: i64| DocSpec { text: text.into(), uri: None, tags: vec![], labels: vec![], track: None, ts, instant: true, explicit_text: true, auto: false };
+    let rq = |ast: Ast, uri: Option<&str>, scope: Option<&str>| Req { ast, top_k: 10, snippet: 80, uri: uri.map(String::from), scope: scope.map(String::from), cursor: None, follow: false };
+    let star_and = |f: Ast| Ast::And(false, Box::new(Ast::Wild("*".into())), Box::new(f));
+    vec![
+        ("deleted-frame-through-filters-only", vec![
+            Op::Put(bare("alpha one", 1_600_000_000)), Op::Put(bare("alpha two", 1_600_000_100)), Op::Put(bare("beta three", 1_600_000_200)), Op::Commit,
+            Op::Search(rq(star_and(Ast::Field("uri".into(), "mv2://frames/1".into())), None, None)),
+            Op::Delete(1), Op::Commit,
+            Op::Search(rq(Ast::Word("alpha".into()), None, None)),
+            Op::Search(rq(star_and(Ast::Field("uri".into(), "mv2://frames/1".into())), None, None)),
+            Op::Search(rq(star_and(Ast::Field("scope".into(), "mv2://frames".into())), None, None)),
+        ]),
+        ("request-uri-ignored-by-filters-only", vec![
+            Op::Put(bare("alpha one", 1_600_000_000)), Op::Put(bare("alpha two", 1_600_000_100)), Op::Put(bare("beta three", 1_600_000_200)), Op::Commit,
+            Op::Search(rq(star_and(Ast::Field("scope".into(), "mv2://frames".into())), Some("mv2://frames/1"), None)),
+            Op::Search(rq(star_and(Ast::Date("2019".into(), "*".into())), None, Some("mv2://frames/2"))),
+            Op::Search(rq(Ast::Word("alpha".into()), Some("mv2://frames/1"), None)),
+        ]),
+        ("superseded-frame", vec![
+            Op::Put(bare("gamma old version", 1_600_000_000)), Op::Put(bare("gamma other", 1_600_000_100)), Op::Commit,
+            Op::Update(0, bare("gamma new version", 1_600_000_300)),
+            Op::Search(rq(Ast::Word("gamma".into()), None, None)),
+            Op::Commit,
+            Op::Search(rq(Ast::Word("gamma".into()), None, None)),
+            Op::Search(rq(Ast::And(false, Box::new(Ast::Wild("*old*".into())), Box::new(Ast::Field("scope".into(), "mv2://frames".into()))), None, None)),
+            Op::Reopen,
+            Op::Search(rq(Ast::Word("old".into()), None, None)),
+        ]),
+    ]
 }
 
 fn main() {
-    let dir = tempfile::tempdir().unwrap();
-    let path = dir.path().join("p.mv2");
-    let mut mem = Memvid::create(&path).unwrap();
-    mem.enable_lex().unwrap();
-    for (i, t) in ["alpha one", "alpha two", "beta three"].iter().enumerate() {
-        let opts = PutOptions { search_text: Some(t.to_string()), timestamp: Some(1_700_000_000), 
-            auto_tag: false, extract_dates: false, extract_triplets: false, instant_index: true, ..Default::default() };
-        println!("seq {:?}", mem.put_bytes_with_options(t.as_bytes(), opts));
+    let args = parse_args();
+    let mut drv = if args.driver.to_str() == Some("none") { None } else { Some(Driver::spawn(&args.driver).expect("spawn driver")) };
+    let mut sum = Summary::new("C10", &args,
+        "random histories on real .mv2 files (2-25 puts of 1-700 word texts over a 15-word vocabulary with URIs, tags, labels, tracks, dates, \
+         with and without instant index / explicit search text / auto-tagging; commits, deletes, updates, reopen) and random query expressions printed \
+         from a generated AST (words, phrases, wildcards, uri:/scope:/tag:/label:/track: terms, date ranges, NOT/AND/implicit AND/OR, depth <= 3) with \
+         top_k 0-50, snippet sizes 0-200, request uri/scope filters and cursors; each search is issued before commit (instant index), after commit \
+         or after reopen; oracle = independent evaluator over the AST + frame-exists/active, uri/scope, text-at-range, range-in-chunk, top_k, rank clauses; \
+         model = Lean post-filter fed with the real engine answer; non-trivial = response with at least one hit; distinct = situation+request+response digest");
+    sum.expect_branches(&["hits-from-tantivy-path", "hits-from-filters-only-path", "situation-before-commit-instant-index", "situation-after-commit",
+        "situation-after-reopen", "post-filter-culled-an-engine-hit", "history-has-delete", "history-has-update", "search-returned-error", "followed-next-cursor"]);
+    let variant = drv.as_mut().map(|d| d.ask("variant")).unwrap_or_default();
+    sum.notes.push(format!("model variant: {variant}"));
+    if args.mode == "replay" {
+        let case = load_replay(args.replay_file.as_ref().expect("replay file"));
+        let input = case.get("input").unwrap_or(&case);
+        let ops: Vec<Op> = input["ops"].as_array().expect("ops").iter().map(op_from).collect();
+        let mut cx = Ctx { drv: &mut drv, sum: &mut sum, verbose: true, table: vec![], failed: false };
+        run_history(&ops, &mut cx);
+        sum.finish(&args);
     }
-    // invalid utf8 payload, text mime
-    let mut meta = memvid_core::DocMetadata::default();
-    meta.mime = Some("text/plain".into());
-    let opts = PutOptions { timestamp: Some(1_700_000_000), uri: Some("mv2://bin/x.txt".into()), metadata: Some(meta),
-        auto_tag: false, extract_dates: false, extract_triplets: false, instant_index: false, ..Default::default() };
-    println!("seq {:?}", mem.put_bytes_with_options(b"gamma \xff\xfe\xfd delta gamma", opts));
-    mem.commit().unwrap();
-    for f in vh::verif_frames(&mem) { println!("  frame {} status {:?} uri {:?} st {:?} role {:?} enc {:?}", f.id, f.status, f.uri, f.search_text, f.role, f.canonical_encoding); }
-    show(&mut mem, "gamma");
-    show(&mut mem, "uri:mv2://d0/x");
-    let mut r = req("* scope:mv2://frames", 10);
-    println!("{:?}", mem.search(r.clone()).map(|r| (r.engine, r.hits.iter().map(|h| (h.frame_id, h.uri.clone())).collect::<Vec<_>>())));
-    r.uri = Some("mv2://frames/1".into());
-    println!("with uri filter d1: {:?}", mem.search(r.clone()).map(|r| (r.engine, r.hits.iter().map(|h| (h.frame_id, h.uri.clone())).collect::<Vec<_>>())));
-    r.uri = None; r.scope = Some("mv2://frames/2".into());
-    println!("with scope filter d2: {:?}", mem.search(r.clone()).map(|r| (r.engine, r.hits.iter().map(|h| (h.frame_id, h.uri.clone())).collect::<Vec<_>>())));
+    for (name, ops) in fixed_corpus() {
+        let mut cx = Ctx { drv: &mut drv, sum: &mut sum, verbose: false, table: vec![], failed: false };
+        run_history(&ops, &mut cx);
+        sum.branch(&format!("corpus-{name}"));
+    }
+    let mut rng = Rng::new(args.seed);
+    let n = if args.thorough { 60 } else { 5 };
+    for _ in 0..n {
+        let ops = gen_history(&mut rng);
+        let mut cx = Ctx { drv: &mut drv, sum: &mut sum, verbose: false, table: vec![], failed: false };
+        run_history(&ops, &mut cx);
+        if sum.oracle_violations.len() + sum.disagreements.len() >= 12 { break; }
+    }
+    if let Some(d) = drv.as_ref() { sum.model_requests = d.requests; }
+    let ld = |c: &std::sync::atomic::AtomicU64| c.load(std::sync::atomic::Ordering::Relaxed);
+    sum.notes.push(format!("wall ms: put {} commit {} reopen {} search {} model+hooks {}", ld(&T_PUT), ld(&T_COMMIT), ld(&T_OPEN), ld(&T_SEARCH), ld(&T_MODEL)));
+    sum.finish(&args);
 }
